@@ -27,9 +27,17 @@ def demo_run(demo, inc, out, extra):
     c = sh(flags)
     if c.returncode != 0:
         return None, "compile error: " + c.stderr[-400:]
-    r = sh([out], timeout=120)
-    failed = r.returncode != 0 or "FAIL" in (r.stdout + r.stderr)
-    return failed, (r.stdout + r.stderr)[-400:]
+    # interleaving-dependent demos: up to 5 runs, any failing run counts as "fails"
+    failed, tail = False, ""
+    for _ in range(5):
+        r = sh([out], timeout=120)
+        tail = (r.stdout + r.stderr)[-400:]
+        if r.returncode != 0 or "FAIL" in (r.stdout + r.stderr):
+            failed = True
+            break
+        if "thread" not in open(demo).read():
+            break
+    return failed, tail
 
 
 def main():
@@ -56,9 +64,15 @@ def main():
         src = open(demo).read()
         if "CAPPUCCINO_VERIF_HOOKS" in src:
             extra.append("-DCAPPUCCINO_VERIF_HOOKS")
-        m = re.search(r"-fsanitize=[\w,]+", meta["notes_from_author"])
-        if m and "demo" in meta["notes_from_author"]:
-            pass  # sanitizer builds are optional extras in the notes; the plain build decides
+        # the author's own g++ line for the demo decides whether a sanitizer is part of the demonstration
+        for ln in meta["notes_from_author"].split("\n"):
+            if "g++" in ln and "demo" in ln:
+                m = re.search(r"-fsanitize=[\w,]+", ln)
+                if m:
+                    extra.append(m.group(0))
+                break
+        if "build this demo with -fsanitize=thread" in src and "-fsanitize=thread" not in extra:
+            extra.append("-fsanitize=thread")
         f1, o1 = demo_run(demo, os.path.join(d, "inc"), os.path.join(d, "demo_with"), extra)
         f0, o0 = demo_run(demo, "/repo/inc", os.path.join(d, "demo_without"), extra)
         meta["demo_fails_with_change"] = f1
